@@ -672,9 +672,14 @@ impl Sys {
                         Ok(d) => {
                             if d != st.m {
                                 dis.push(Dis { class: "ring", key: format!("ring:{opname}:{shape}:wrong"), expected: format!("{:?} (a-priori noise {:.0} of {} bits)", st.m, wbits, self.qbits[om.level]), observed: format!("{:?}", d) });
+                                // a wrong result is not propagated: later transitions would only repeat the alarm
+                                return None;
                             }
                         }
-                        Err(e) => dis.push(Dis { class: "ring", key: format!("ring:{opname}:{shape}:decrypt-{}", panic_class(&e)), expected: "decryption of a valid result".into(), observed: e }),
+                        Err(e) => {
+                            dis.push(Dis { class: "ring", key: format!("ring:{opname}:{shape}:decrypt-{}", panic_class(&e)), expected: "decryption of a valid result".into(), observed: e });
+                            return None;
+                        }
                     }
                 }
                 if or.budget {
